@@ -55,6 +55,9 @@ pub struct Case {
     pub flags: Vec<String>,
     #[serde(default)]
     pub keep_known: bool,
+    /// snippets with unusual reference edges appended after the program (index into TAIL_SNIPPETS)
+    #[serde(default)]
+    pub tail: Vec<u8>,
 }
 
 #[derive(Clone, Copy, Debug, PartialEq, Eq, PartialOrd, Ord)]
@@ -72,6 +75,28 @@ struct ItemSpec {
     /// `typedef struct X {..} X_t;`: the alias item (refers to the tag item of the same decl)
     is_alias: bool,
 }
+
+/// Declarations whose references run over the less common IR edges (vector element types,
+/// function types, arrays of array typedefs, bit-fields of enum type, pointees, signatures of
+/// function-pointer variables ..). `{j}` makes the names unique; each entry lists
+/// (name, kind, names it refers to).
+struct Snippet {
+    text: &'static str,
+    items: &'static [(&'static str, char, &'static [&'static str])],
+}
+
+const TAIL_SNIPPETS: &[Snippet] = &[
+    Snippet { text: "typedef float X{j}e;\ntypedef X{j}e X{j}v __attribute__((vector_size(16)));\nstruct X{j}s { X{j}v v; };\n", items: &[("X{j}e", 't', &[]), ("X{j}v", 't', &["X{j}e"]), ("X{j}s", 't', &["X{j}v"])] },
+    Snippet { text: "typedef int X{j}e;\ntypedef X{j}e X{j}ft(X{j}e, char);\nstruct X{j}s { X{j}ft *f; };\n", items: &[("X{j}e", 't', &[]), ("X{j}ft", 't', &["X{j}e"]), ("X{j}s", 't', &["X{j}ft"])] },
+    Snippet { text: "typedef short X{j}e;\nX{j}e (*X{j}f(void))[3];\n", items: &[("X{j}e", 't', &[]), ("X{j}f", 'f', &["X{j}e"])] },
+    Snippet { text: "enum X{j}e { X{j}e_A, X{j}e_B };\nstruct X{j}s { enum X{j}e e : 3; int rest : 5; };\n", items: &[("X{j}e", 't', &[]), ("X{j}s", 't', &["X{j}e"])] },
+    Snippet { text: "typedef long X{j}e;\ntypedef X{j}e X{j}a[2];\nstruct X{j}s { X{j}a a[3]; };\n", items: &[("X{j}e", 't', &[]), ("X{j}a", 't', &["X{j}e"]), ("X{j}s", 't', &["X{j}a"])] },
+    Snippet { text: "struct X{j}i;\nstruct X{j}s { struct X{j}i **pp; };\n", items: &[("X{j}i", 't', &[]), ("X{j}s", 't', &["X{j}i"])] },
+    Snippet { text: "typedef unsigned X{j}e;\nstruct X{j}s { union { X{j}e e; char c; } u; struct { X{j}e *p; }; };\n", items: &[("X{j}e", 't', &[]), ("X{j}s", 't', &["X{j}e"])] },
+    Snippet { text: "typedef double X{j}e;\ntypedef struct { int k; } X{j}p;\nvoid X{j}f(X{j}e first, ...);\nextern X{j}e (*X{j}g)(X{j}p *, int);\n", items: &[("X{j}e", 't', &[]), ("X{j}p", 't', &[]), ("X{j}f", 'f', &["X{j}e"]), ("X{j}g", 'v', &["X{j}e", "X{j}p"])] },
+    Snippet { text: "typedef int X{j}e;\nstruct X{j}s { const volatile X{j}e e; X{j}e (*cb)(const X{j}e *); };\nextern const struct X{j}s X{j}g[2];\n", items: &[("X{j}e", 't', &[]), ("X{j}s", 't', &["X{j}e"]), ("X{j}g", 'v', &["X{j}s"])] },
+    Snippet { text: "typedef float X{j}e;\nstruct X{j}s { _Complex float c; X{j}e r; };\ntypedef struct X{j}s X{j}t;\nX{j}t *X{j}f(X{j}t);\n", items: &[("X{j}e", 't', &[]), ("X{j}s", 't', &["X{j}e"]), ("X{j}t", 't', &["X{j}s"]), ("X{j}f", 'f', &["X{j}t"])] },
+];
 
 fn tern(mut i: usize) -> String {
     if i == 0 {
@@ -230,8 +255,9 @@ impl Property for C09 {
             proptest::bool::weighted(0.25),
             proptest::option::weighted(0.12, 1u8..5),
             flags_strategy(),
+            proptest::collection::vec(0u8..TAIL_SNIPPETS.len() as u8, 0..3),
         )
-            .prop_map(|(prog, roots, blocklist, no_recursive, by_file, flags)| Case { prog, roots, blocklist, no_recursive, by_file, flags, keep_known: false })
+            .prop_map(|(prog, roots, blocklist, no_recursive, by_file, flags, tail)| Case { prog, roots, blocklist, no_recursive, by_file, flags, keep_known: false, tail })
             .boxed()
     }
     fn generated(&self, tier: Tier) -> usize {
@@ -253,7 +279,21 @@ impl Property for C09 {
         }
         rename(&mut prog);
         let n = prog.decls.len();
-        let items = items_of(&prog);
+        let mut items = items_of(&prog);
+        // tail snippets: items with declaration numbers from n upwards and explicit references
+        let mut tail_text = String::new();
+        let mut tail_refs: BTreeMap<usize, Vec<String>> = BTreeMap::new();
+        for (j, k) in case.tail.iter().enumerate() {
+            let sn = &TAIL_SNIPPETS[*k as usize % TAIL_SNIPPETS.len()];
+            let js = j.to_string();
+            tail_text.push_str(&sn.text.replace("{j}", &js));
+            for (name, kind, refs) in sn.items {
+                let d = n + items.len() + 1000 * (j + 1);
+                items.push(ItemSpec { c_name: name.replace("{j}", &js), kind: match kind { 't' => Kind::Type, 'f' => Kind::Func, _ => Kind::Var }, decl: d, is_alias: false });
+                tail_refs.insert(d, refs.iter().map(|r| r.replace("{j}", &js)).collect());
+            }
+            out.class(format!("tail:{k}"));
+        }
         if items.is_empty() {
             return out;
         }
@@ -272,6 +312,7 @@ impl Property for C09 {
                 main.push_str(&t);
             }
         }
+        main.push_str(&tail_text);
         std::fs::write(env.dir.join("first.h"), &first).ok();
         std::fs::write(env.dir.join("in.h"), &main).ok();
         let header_text = if k_file > 0 { format!("// first.h\n{first}// in.h\n{main}") } else { main.clone() };
@@ -384,6 +425,12 @@ impl Property for C09 {
             let it = &items[k];
             if it.is_alias {
                 work.push(tag_item_of_decl[&it.decl]);
+            } else if let Some(names) = tail_refs.get(&it.decl) {
+                for nm in names {
+                    if let Some(t) = items.iter().position(|x| x.c_name == *nm) {
+                        work.push(t);
+                    }
+                }
             } else {
                 for d in refs_of(&prog, it.decl) {
                     if let Some(t) = use_item_of_decl.get(&d) {
